@@ -1,5 +1,5 @@
 SPECIFICATION Spec
-CONSTANT MaxN = 9
+CONSTANT MaxN = 8
 CONSTANT BlockDepths = {2, 4, 8, 16}
 INVARIANT LayoutOK
 INVARIANT CoverageOK
